@@ -217,3 +217,105 @@ class RemoveFrom(_Counted):
 
     def covers(self, cx, ov, info):
         return [("unregisters", lambda k, p, s: k == "return"), ("not-found", lambda k, p, s: k == "raise")]
+
+
+# ------------------------------------------------------------------------------------------------------------------
+# ObserverChangeNotifier (the maintainers that re-hook observers when an intermediate object changes): counted by
+# multiplicity -- one list entry per registration, no reference count
+# ------------------------------------------------------------------------------------------------------------------
+OPATH = "traits/observation/_observer_change_notifier.py"
+
+
+class _OEquals(Contract):
+    path = OPATH
+    qualname = "ObserverChangeNotifier.equals"
+
+    def summary(self, I, self_ref, args, kwargs, st, k):
+        return k(VBool(EQ(I.cx.ref_val(self_ref), as_val(I.cx, args[0], st))), st)
+
+
+class _Multiplicity(Contract):
+    """the maintainer population of an observable is the multiset of registrations: add_to appends one entry (always),
+    remove_from deletes exactly one entry equivalent to this maintainer -- the first -- and raises NotifierNotFound,
+    changing nothing, when there is none.  n additions therefore need exactly n removals."""
+    path = OPATH
+    properties = ("C09", "C08")
+    class_paths = (OPATH,)
+    assumptions = ("A-PY", "A-BUILTIN:list", "A-EQ: `equals` is an equivalence relation and does not raise")
+
+    def configure(self, cx, I, ov):
+        cx.const("None")
+        self.NL = z3.Const("notifier_list", SeqV)
+        cx.contracts = dict(cx.contracts)
+        cx.contracts[("ObserverChangeNotifier", "equals")] = _OEquals()
+        x, y, z = z3.Consts("x!eq y!eq z!eq", Val)
+        cx.axioms += [z3.ForAll([x], EQ(x, x)), z3.ForAll([x, y], EQ(x, y) == EQ(y, x)),
+                      z3.ForAll([x, y, z], z3.Implies(z3.And(EQ(x, y), EQ(y, z)), EQ(x, z)))]
+
+        def notifiers_attr(I2, o, st, k):
+            def apply(I3, a, kw, s, kk):
+                forced = len(a) == 1 and isinstance(a[0], VBool) and z3.is_true(z3.simplify(a[0].t))
+                return kk(s.ghost["nl_ref"], s.gset("forced", s.ghost.get("forced", True) and forced))
+            return k(VFunc("opaque", name="_notifiers", apply=apply), st)
+        cx.elem_attrs["_notifiers"] = notifiers_attr
+
+    def setup(self, cx, I, ov):
+        st = St()
+        nl, self_ref = VRef(cx.new_oid()), VRef(cx.new_oid())
+        st = st.put(nl.oid, HObj("list", self.NL)).put(self_ref.oid, HObj("obj", None, "ObserverChangeNotifier", {}))
+        st = st.gset("nl_ref", nl)
+        return st, [self_ref, VElem(z3.Const("observable", Val))], {}, dict(self_ref=self_ref, me=cx.ref_val(self_ref), nl=nl,
+                                                                             witness=dict(listed=z3.Length(self.NL)))
+
+
+@register
+class OAddTo(_Multiplicity):
+    qualname = "ObserverChangeNotifier.add_to"
+
+    def post(self, cx, I, ov, info, kind, payload, st):
+        if kind == "raise":
+            return [("exc-free", z3.BoolVal(False))]
+        seq1 = st.heap[info["nl"].oid].payload
+        return [("post:one-more-entry-for-this-registration-at-the-end", seq1 == z3.Concat(self.NL, z3.Unit(info["me"]))),
+                ("post:the-notifier-list-is-created-if-need-be", z3.BoolVal(bool(st.ghost.get("forced", False))))]
+
+    def covers(self, cx, ov, info):
+        return [("registers", lambda k, p, s: k == "return")]
+
+
+@register
+class ORemoveFrom(_Multiplicity):
+    qualname = "ObserverChangeNotifier.remove_from"
+
+    def configure(self, cx, I, ov):
+        _Multiplicity.configure(self, cx, I, ov)
+        NL = self.NL
+
+        def inv(i, view, st):
+            j = z3.Int("j!orem")
+            me = cx.ref_val(st.env["self"])
+            cur = st.heap[st.ghost["nl_ref"].oid].payload
+            return [("no-earlier-notifier-is-equivalent", z3.ForAll([j], z3.Implies(z3.And(0 <= j, j < i), z3.Not(EQ(me, NL[j]))))),
+                    ("list-untouched-so-far", cur == NL)]
+        cx.on_loop = loops.make_hook({0: loops.LoopSpec("for notifier in notifiers[:]", [], inv)})
+
+    def post(self, cx, I, ov, info, kind, payload, st):
+        me = info["me"]
+        NL = self.NL
+        n = z3.Length(NL)
+        seq1 = st.heap[info["nl"].oid].payload
+        a = z3.Int("a!op")
+        listed = z3.Exists([a], z3.And(0 <= a, a < n, EQ(me, NL[a])))
+        if kind == "raise":
+            return [("raise:only-NotifierNotFound-and-only-when-nothing-equivalent-is-listed",
+                     z3.And(z3.BoolVal(payload.cname == "NotifierNotFound"), z3.Not(listed)), dict(exception="%s %r" % (payload.cname or payload.sym, payload.origin))),
+                    ("raise:nothing-changed", seq1 == NL)]
+        i = st.ghost.get("__loop_index__")
+        if i is None:
+            return [("post:returns-only-after-removing-an-entry", z3.BoolVal(False))]
+        gone = z3.Concat(z3.Extract(NL, 0, i), z3.Extract(NL, i + 1, n - i - 1))
+        return [("post:the-entry-removed-is-equivalent-to-this-registration", EQ(me, NL[i])),
+                ("post:exactly-one-entry-leaves-the-first-equivalent-one-and-every-other-stays-in-order", seq1 == gone)]
+
+    def covers(self, cx, ov, info):
+        return [("unregisters", lambda k, p, s: k == "return"), ("not-found", lambda k, p, s: k == "raise")]
